@@ -661,9 +661,18 @@ class _Walker:
                     and isinstance(n.slice, ast.Constant) and isinstance(n.slice.value, int) and n.slice.value >= 0:
                 return base | frozenset([('p', 'out#%d' % n.slice.value)])      # out[i]: component i of the output tuple
             if isinstance(base, tuple):
-                if isinstance(n.slice, ast.Constant) and isinstance(n.slice.value, int) \
-                        and -len(base) <= n.slice.value < len(base):
-                    return base[n.slice.value]
+                k = n.slice
+                if isinstance(k, ast.UnaryOp) and isinstance(k.op, ast.USub) and isinstance(k.operand, ast.Constant) and isinstance(k.operand.value, int):
+                    k = ast.Constant(value=-k.operand.value)
+                if isinstance(k, ast.Constant) and isinstance(k.value, int) and not isinstance(k.value, bool) \
+                        and -len(base) <= k.value < len(base):
+                    return base[k.value]
+                # any element of a list of records of one arity is such a record
+                if base and all(isinstance(e_, tuple) and len(e_) == len(base[0]) for e_ in base) and not isinstance(n.slice, ast.Slice):
+                    el = base[0]
+                    for e_ in base[1:]:
+                        el = join(el, e_)
+                    return el
                 return flat(base)
             return base
         if isinstance(n, ast.Slice):
@@ -1120,7 +1129,14 @@ class _Walker:
                 self.s.events.append(Event(frozenset(x for x in r if x[0] == 'p'), 'acc', 'container:' + name, c))
             if name in M_CONTAINER_ADD and isinstance(c.func.value, ast.Name):
                 v = c.func.value.id
-                env[v] = flat(env.get(v, EMPTY)) | allargs
+                cur = env.get(v, EMPTY)
+                new_el = args[0] if (name == "append" and len(args) == 1 and not kws and not has_star) else None
+                if isinstance(cur, tuple) and cur and isinstance(new_el, tuple) and new_el \
+                        and all(isinstance(e_, tuple) and len(e_) == len(new_el) for e_ in cur):
+                    # a list of records (tuples of one arity) stays a list of records: every element may now be the new record
+                    env[v] = tuple(join(e_, new_el) for e_ in cur)
+                else:
+                    env[v] = flat(cur) | allargs
             out = join(out, r)
         if cands and isinstance(c.func.value, ast.Name) and c.func.value.id in self.types:
             allowed = set()
